@@ -179,3 +179,43 @@ def rule_private_boundary(ctx):
                     r.ok(construct, sample={"function": f.qualname, "boundary": f"{name} = {src_of(d.value)[:50]}", "compressed": "in place, on private copies"})
     r.floor(n, 2, "in-place boundary compressions")
     return r
+
+
+def rule_env_scope(ctx):
+    r = RuleResult(
+        "env-scope",
+        "a routine that stores boundary environments as `env = tn.select(boundary); env.exponent = tn.exponent - <snapshot>` attributes to "
+        "each environment every norm that was stripped into tn.exponent since the snapshot: inside such a routine the norms may only be "
+        "stripped from the contracted boundary (contract_boundary_from_(..., equalize_norms=...) or a selection of the boundary whose "
+        "exponent is folded back) — equalizing the *whole* working network also strips the rows / planes that are not part of the "
+        "environment, which then no longer combines with the rest of the lattice to the value of the whole",
+    )
+    n = 0
+    for modname in ("quimb.tensor.tn2d.core", "quimb.tensor.tn3d.core"):
+        m = ctx.prog.modules.get(modname)
+        if m is None:
+            continue
+        for f in m.all_functions:
+            if f.parent is not None or f.is_alias or isinstance(f.node, ast.Lambda):
+                continue
+            # env.exponent = <work>.exponent - <snapshot>
+            works = set()
+            for a in ast.walk(f.node):
+                if isinstance(a, ast.Assign) and any(isinstance(t, ast.Attribute) and t.attr == "exponent" for t in a.targets) and isinstance(a.value, ast.BinOp) and isinstance(a.value.op, ast.Sub) \
+                        and isinstance(a.value.left, ast.Attribute) and a.value.left.attr == "exponent" and isinstance(a.value.left.value, ast.Name):
+                    works.add(a.value.left.value.id)
+            if not works:
+                continue
+            n += 1
+            whole = [c for c in ast.walk(f.node) if isinstance(c, ast.Call) and isinstance(c.func, ast.Attribute) and c.func.attr in ("equalize_norms_", "equalize_norms", "strip_exponent")
+                     and isinstance(c.func.value, ast.Name) and c.func.value.id in works]
+            q = f.qualname
+            if whole:
+                c = whole[0]
+                r.bad(Finding("env-scope", q, f"`{src_of(c)[:50]}` (line {c.lineno}) strips the norms of the whole working network `{c.func.value.id}` while the environments stored by this "
+                                              "routine are charged everything that enters its exponent: norms of rows / planes outside an environment end up in that environment",
+                              where=f"{m.relpath}:{c.lineno}", operand="whole-network"))
+            else:
+                r.ok(q, sample={"producer": q, "working network": sorted(works), "norms stripped from": "the boundary only"})
+    r.floor(n, 1, "environment producers that charge the accrued exponent to the environment")
+    return r
